@@ -438,10 +438,7 @@ def _tuple(eng, a, kw, st, fr, k, node):
 def _new_array(eng, st, n, init, sort="int", ncols=None, hint="arr"):
     base = eng.new_base(hint)
     if ncols is not None:
-        arr = z3.K(z3.IntSort(), z3.K(z3.IntSort(), init)) if False else None
-        # 2-D arrays use a two-index array sort; constant arrays via lambda
-        i, j = z3.Ints("ci cj")
-        arr = z3.Lambda([i, j], init)
+        arr = z3.K(z3.IntSort(), z3.K(z3.IntSort(), init))
         cell = {"": arr, "#sorts": {"": sort + "2"}}
         st = St(st.env, {**st.heap, base: cell}, st.pc, st.ghost)
         return Arr(base, "", z3.IntVal(0), n, ncols), st
@@ -575,3 +572,51 @@ def _endtime(eng, a, kw, st, fr, k, node):
             return k(Vec(x.n, lambda i: z3.Select(t, lo + i) + z3.Select(l, lo + i) * z3.Select(d, lo + i)), st)
         return k(Arr(base, "endtime", x.lo, x.n), st)
     raise Unsupported("strax.endtime of " + type(x).__name__)
+
+
+# -- sorting (trusted model of numpy's stable argsort) --------------------------------------
+def argsort_facts(S, arr, perm, inv):
+    """perm is a stable sorting permutation of arr; inv is its inverse (ghost)."""
+    m = arr.n
+    return [
+        perm.n == m, inv.n == m,
+        S.forall(0, m, lambda i: S.And(0 <= perm.at(i), perm.at(i) < m, inv.at(perm.at(i)) == i)),
+        S.forall(0, m, lambda c: S.And(0 <= inv.at(c), inv.at(c) < m, perm.at(inv.at(c)) == c)),
+        S.forall2(0, m, 0, m, lambda i, j: S.Implies(i <= j, arr.at(perm.at(i)) <= arr.at(perm.at(j)))),
+        S.forall2(0, m, 0, m, lambda i, j: S.Implies(
+            S.And(i < j, arr.at(perm.at(i)) == arr.at(perm.at(j))), perm.at(i) < perm.at(j))),
+    ]
+
+
+def new_int_array(eng, st, hint, n=None):
+    """Fresh, unconstrained 1-D int array value."""
+    base = eng.new_base(hint)
+    n = eng.fresh_len(hint) if n is None else n
+    cell = {"#sorts": {"": "int"}}
+    st = St(st.env, {**st.heap, base: cell}, st.pc, st.ghost)
+    return Arr(base, "", z3.IntVal(0), n), st
+
+
+@lib("np.argsort")
+def _np_argsort(eng, a, kw, st, fr, k, node):
+    kind = kw.get("kind")
+    if kind != "mergesort":
+        raise Unsupported("np.argsort with a kind other than the literal 'mergesort'")
+    x = a[0]
+    if not (isinstance(x, Arr) and x.field is not None):
+        raise Unsupported("argsort of a non-column value")
+    perm, st = new_int_array(eng, st, "argsort", x.n)
+    inv, st = new_int_array(eng, st, "argsort_inv", x.n)
+    eng.assumptions.add("library model: np.argsort(kind='mergesort') returns a stable sorting permutation")
+    for f in argsort_facts(eng.S, eng.resolve(x, st.heap), eng.resolve(perm, st.heap), eng.resolve(inv, st.heap)):
+        st = st.assume(eng.S.b(f))
+    eng.inv_of[perm.base] = inv
+    return k(perm, st)
+
+
+def make_perm_result(eng, st, n):
+    """Result shape for sorting contracts: a fresh permutation array with a ghost inverse."""
+    perm, st = new_int_array(eng, st, "perm", n)
+    inv, st = new_int_array(eng, st, "perm_inv", n)
+    eng.inv_of[perm.base] = inv
+    return perm, st
